@@ -97,6 +97,19 @@ def _jsonable(v):
     return repr(v)
 
 
+OPEN_TAGS = set()    # tags of open known findings (from known_findings.json, set by the worker)
+KNOWN_HITS = set()
+
+
+def known_mode(tag):
+    """A harness that recognises a *listed* failure mode (identified by call site + mode in
+    known_findings.json) calls this; True = listed as an open finding (recorded, not a new violation)."""
+    if tag in OPEN_TAGS:
+        KNOWN_HITS.add(tag)
+        return True
+    return False
+
+
 def concrete(*vals):
     """Realise symbolic values (each realisation is a fork of the path tree: the remaining
     values are explored on other paths, so exhaustiveness is kept).  No-op on plain CPython."""
